@@ -3,6 +3,7 @@ module verifharness
 go 1.23.0
 
 require (
+	github.com/dlclark/regexp2 v1.11.5
 	github.com/go-faster/jx v1.1.0
 	github.com/go-faster/yaml v0.4.6
 	github.com/google/uuid v1.6.0
@@ -10,7 +11,6 @@ require (
 )
 
 require (
-	github.com/dlclark/regexp2 v1.11.5 // indirect
 	github.com/fatih/color v1.18.0 // indirect
 	github.com/ghodss/yaml v1.0.0 // indirect
 	github.com/go-faster/errors v0.7.1 // indirect
